@@ -206,7 +206,7 @@ class BalancedMarket(Strategy):
                         else:
                             max_power = cur_power
 
-                if start_idx == 0 and power[0]:
+                if 0 in same_price_ts and power[0]:
                     # current timestep: charge vehicle for real
                     p = power[0]
                     avg_power = vehicle.battery.load(self.interval, target_power=p)['avg_power']
